@@ -46,6 +46,11 @@ func (c *Ctx) postRecover(rule string, entry *ssa.Function, entryName, doing str
 			}
 		}
 	})
+	if len(roots) == 0 {
+		// the deferred function calls nothing of the module (the formatting happens in the entry itself, where a panic
+		// is still recovered): nothing runs unprotected, the hand-confirmed floor of the pinned shape does not apply
+		floor = 0
+	}
 	rr := c.P.Reach(append([]*ssa.Function{closure}, roots...), c.inModule, nil)
 	in := map[*ssa.Function]bool{}
 	for _, f := range rr.Order {
@@ -133,6 +138,30 @@ func (c *Ctx) dischargePanicSite(s panicSite) (bool, string) {
 		}
 		return false
 	}
+	// both sides as base + constant: v = idx + k with k >= min
+	lin := func(v ssa.Value) (ssa.Value, int64) {
+		k := int64(0)
+		for {
+			b2, ok := v.(*ssa.BinOp)
+			if !ok || b2.Op != token.ADD {
+				return v, k
+			}
+			if n, isK := constIntArg(b2.Y); isK {
+				v, k = b2.X, k+n
+				continue
+			}
+			if n, isK := constIntArg(b2.X); isK {
+				v, k = b2.Y, k+n
+				continue
+			}
+			return v, k
+		}
+	}
+	atLeast := func(v ssa.Value, min int64) bool {
+		bv, kv := lin(v)
+		bi, ki := lin(idx)
+		return (bv == bi || sameExpr(bv, bi)) && kv-ki >= min
+	}
 	for d := b; d != nil; d = d.Idom() {
 		id := d.Idom()
 		if id == nil {
@@ -148,6 +177,18 @@ func (c *Ctx) dischargePanicSite(s panicSite) (bool, string) {
 		}
 		onTrue := id.Succs[0] == d && len(d.Preds) == 1
 		onFalse := id.Succs[1] == d && len(d.Preds) == 1
+		// idx + k <= len(base) with k >= 1 (`pos+2 <= len(text)` in front of text[pos+1])
+		switch {
+		case onTrue && bo.Op == token.LEQ && atLeast(bo.X, 1) && isLenOf(bo.Y),
+			onTrue && bo.Op == token.GEQ && atLeast(bo.Y, 1) && isLenOf(bo.X),
+			onFalse && bo.Op == token.GTR && atLeast(bo.X, 1) && isLenOf(bo.Y),
+			onFalse && bo.Op == token.LSS && atLeast(bo.Y, 1) && isLenOf(bo.X),
+			onTrue && bo.Op == token.LSS && atLeast(bo.X, 0) && isLenOf(bo.Y),
+			onTrue && bo.Op == token.GTR && atLeast(bo.Y, 0) && isLenOf(bo.X):
+			if _, isCell := idx.(*ssa.UnOp); !isCell {
+				return true, ""
+			}
+		}
 		// loop headers: the body successor may have one pred
 		switch {
 		case onTrue && bo.Op == token.LSS && matchIdx(bo.X) && isLenOf(bo.Y),
